@@ -490,3 +490,48 @@ def rule_xdr_encode_source(ctx):
                     locals_loaded[strip(x[2])[1]] = True
     ctx.floor("XDRENC", 6, n, "(locals handed to a bidirectional XDR primitive outside decode-only arms)")
     return n
+
+
+def rule_retype_refused_before_change(ctx):
+    """RETYPEFIRST (C10): SDsetdimscale may give an existing coordinate variable another number type; SDIgetcoordvar re-types the
+    variable in memory and the values are written afterwards.  Values that were written earlier live in a data element that
+    cannot grow, so a *wider* type cannot be stored — the call has to fail.  It must fail before the variable is touched: in the
+    re-typing arm of SDIgetcoordvar the first statement is the test (written data, wider size) that leaves with an error, and
+    the stores into the variable come after it.  Re-typed first, a refused call leaves a variable whose type no longer matches
+    its stored values, and the scale cannot be read any more."""
+    from .codec import ast_walk
+    from .facts import kind, strip, walk, render
+    prog = ctx.prog
+    f = prog.func("SDIgetcoordvar")
+    if f is None or not f.raw.get("ast"):
+        ctx.unrecognised("RETYPEFIRST", "RETYPEFIRST:SDIgetcoordvar", "-", "SDIgetcoordvar not found")
+        return 0
+    arms = []
+
+    def vis(nd, st):
+        if nd[0] == "if":
+            arm = nd[2]
+            kids = arm[1] if arm[0] == "block" else [arm]
+            stores = [i for i, k in enumerate(kids) if k[0] in ("s", "if") and k[1] is not None and any(x[0] == "asg" and (mem_field(x[2]) or (0, 0))[1] in ("HDFtype", "type", "szof", "HDFsize") for x in walk(k[1], True))]
+            if stores:
+                arms.append((nd, kids, stores[0]))
+        return True
+
+    ast_walk(f.raw["ast"], vis)
+    n = 0
+    for nd, kids, first_store in arms:
+        n += 1
+        key = "RETYPEFIRST:SDIgetcoordvar#%d" % n
+        line = nd[-3] if isinstance(nd[-3], int) else f.line
+        ok = False
+        for k in kids[:first_store]:
+            if k[0] == "if":
+                fields = {y[2] for y in walk(k[1], True) if y[0] == "mem"}
+                if "data_ref" in fields and ("HDFsize" in fields or "szof" in fields):
+                    ok = True
+        if ok:
+            ctx.holds("RETYPEFIRST", key, f.where(line), "a wider type for written values is refused before the variable is re-typed", nontrivial=True)
+        else:
+            ctx.violated("RETYPEFIRST", key, f.where(line), "the coordinate variable is re-typed without first refusing a wider type for values that are already written: the later write fails and leaves the variable with a type that does not match its stored values")
+    ctx.floor("RETYPEFIRST", 1, n, "(re-typing arms of SDIgetcoordvar)")
+    return n
